@@ -8,7 +8,7 @@ Specification-coverage extension (not one of the 20 listed properties; not in MA
 2. implementation -> specification: histories (TLC simulation of MC_UnchokerGen + seeded random + fairness runs) are
    replayed into the real Unchoker with stub peers; Trace_Unchoker judges every call in one TLC pass.
 """
-import json, re
+import json, os, re
 import vlib
 
 PREDICTED = {"X01.f", "X01.a.reg", "X01.a.opt"}
@@ -24,6 +24,12 @@ def run(ctx):
                         "the optimistic draw uses the unseeded global math/rand/v2 source: every draw is accepted by the envelope; "
                         "only the fairness runs depend on it (false-alarm probability < 1e-7 per check run)"]
     # ---------------------------------------------------------------- 1. design level
+    if not os.environ.get("VERIF_SKIP_MC"):       # development knob (mutation runs change the implementation only)
+        design_level(ctx)
+    implementation(ctx)
+
+
+def design_level(ctx):
     ctx.tlc_mc("MC_Unchoker", "MC_Unchoker.cfg", timeout=600, workers=4)
     ctx.tlc_mc("MC_UnchokerAlg", "MC_UnchokerAlg_fixed.cfg", timeout=600, workers=4)
     ctx.tlc_mc("MC_UnchokerAlg", "MC_UnchokerAlg_asis_known.cfg", timeout=600, workers=4)
@@ -45,6 +51,9 @@ def run(ctx):
         for c in ("MC_UnchokerAlg_fixed_4.cfg", "MC_UnchokerAlg_fixed_n2m1.cfg", "MC_UnchokerAlg_fixed_n0m1.cfg",
                   "MC_UnchokerAlg_fixed_n1m0.cfg", "MC_UnchokerAlg_asis_known_4.cfg"):
             ctx.tlc_mc("MC_UnchokerAlg", c, timeout=1500, workers=6)
+
+
+def implementation(ctx):
     # ---------------------------------------------------------------- 2. implementation -> specification
     items, _ = ctx.tlc_gen("MC_UnchokerGen", ctx.pick("MC_UnchokerGen.cfg", "MC_UnchokerGen_5.cfg"),
                            simulate=ctx.pick(150, 1500), depth=ctx.pick(45, 65), timeout=900)
